@@ -6376,6 +6376,10 @@ class PyCdlib:
         if rec.inode is None:
             raise pycdlibexception.PyCdlibInvalidInput('File has no data')
 
+        if rec.inode.boot_info_table is not None and self._needs_reshuffle:
+            # The boot info table holds extents, so they have to be current.
+            self._reshuffle_extents()
+
         return pycdlibio.PyCdlibIO(rec.inode, self.logical_block_size)
 
     def has_rock_ridge(self):
